@@ -141,5 +141,6 @@ class SocketSpawn(SpawnBase):
                     self.flag_eof = True
                     raise EOF("Socket closed")
                 return s
-        except socket.timeout:
+        except (socket.timeout, BlockingIOError):
+            # BlockingIOError: timeout=0 puts the socket in non-blocking mode
             raise TIMEOUT("Timeout exceeded.")
